@@ -39,9 +39,12 @@ type Store struct {
 	nCalls    int
 	// Partition: keep the messages per (Sender, Target) of the StorageID, as a store
 	// serving several sessions has to; the bundled memory.Storage ignores the ID.
+	FailNexts map[int]bool // 1-based index of outgoing GetNextSeqNum calls that fail (no number is handed out)
+	nexts     int
 	FailSets  bool // every SetSeqNum call fails from now on (a counter store that has gone away)
 	FailGets  bool // every GetCurrSeqNum call fails
 	Partition bool
+	counters  map[string]*int // with Partition: one counter per (Sender, Target, Side) of the StorageID
 	parts     map[string]map[int]simplefixgo.SendingMessage
 }
 
@@ -100,8 +103,39 @@ func (s *Store) Calls() []StoreCall {
 	return append([]StoreCall(nil), s.calls...)
 }
 
+// counter returns the partitioned counter cell of an identity and side.
+func (s *Store) counter(id fix.StorageID) *int {
+	if s.counters == nil {
+		s.counters = map[string]*int{}
+	}
+	key := id.Sender + "\x00" + id.Target + "\x00" + string(id.Side)
+	if s.counters[key] == nil {
+		s.counters[key] = new(int)
+	}
+	return s.counters[key]
+}
+
 func (s *Store) GetNextSeqNum(id fix.StorageID) (int, error) {
 	s.delay("next")
+	if id.Side == fix.Outgoing && len(s.FailNexts) > 0 {
+		s.mu.Lock()
+		s.nexts++
+		fail := s.FailNexts[s.nexts]
+		s.mu.Unlock()
+		if fail {
+			s.rec(StoreCall{Op: "next", Side: string(id.Side), Err: true})
+			return 0, ErrInjected
+		}
+	}
+	if s.Partition {
+		s.mu.Lock()
+		c := s.counter(id)
+		*c++
+		n := *c
+		s.mu.Unlock()
+		s.rec(StoreCall{Op: "next", Seq: n, Side: string(id.Side)})
+		return n, nil
+	}
 	n, err := s.Inner.GetNextSeqNum(id)
 	s.rec(StoreCall{Op: "next", Seq: n, Side: string(id.Side), Err: err != nil})
 	return n, err
@@ -114,6 +148,11 @@ func (s *Store) GetCurrSeqNum(id fix.StorageID) (int, error) {
 	if failing {
 		return 0, ErrInjected
 	}
+	if s.Partition {
+		s.mu.Lock()
+		defer s.mu.Unlock()
+		return *s.counter(id), nil
+	}
 	n, err := s.Inner.GetCurrSeqNum(id)
 	return n, err
 }
@@ -125,7 +164,15 @@ func (s *Store) SetFailGets(on bool) {
 	s.mu.Unlock()
 }
 
-func (s *Store) ResetSeqNum(id fix.StorageID) error { return s.Inner.ResetSeqNum(id) }
+func (s *Store) ResetSeqNum(id fix.StorageID) error {
+	if s.Partition {
+		s.mu.Lock()
+		*s.counter(id) = 0
+		s.mu.Unlock()
+		return nil
+	}
+	return s.Inner.ResetSeqNum(id)
+}
 
 func (s *Store) SetSeqNum(id fix.StorageID, n int) error {
 	s.mu.Lock()
@@ -134,6 +181,13 @@ func (s *Store) SetSeqNum(id fix.StorageID, n int) error {
 	if failing {
 		s.rec(StoreCall{Op: "set", Seq: n, Side: string(id.Side), Err: true})
 		return ErrInjected
+	}
+	if s.Partition {
+		s.mu.Lock()
+		*s.counter(id) = n
+		s.mu.Unlock()
+		s.rec(StoreCall{Op: "set", Seq: n, Side: string(id.Side)})
+		return nil
 	}
 	err := s.Inner.SetSeqNum(id, n)
 	s.rec(StoreCall{Op: "set", Seq: n, Side: string(id.Side), Err: err != nil})
@@ -178,8 +232,8 @@ func (s *Store) Messages(id fix.StorageID, from, to int) ([]simplefixgo.SendingM
 	var err error
 	if s.Partition {
 		// the same rules as memory.Storage.Messages, on this identity's messages only
-		last, _ := s.Inner.GetCurrSeqNum(fix.StorageID{Sender: id.Sender, Target: id.Target, Side: fix.Outgoing})
 		s.mu.Lock()
+		last := *s.counter(fix.StorageID{Sender: id.Sender, Target: id.Target, Side: fix.Outgoing})
 		part := s.parts[id.Sender+"\x00"+id.Target]
 		switch {
 		case from > to:
